@@ -515,23 +515,8 @@ Lemma read_render_correct (u : acc3) (name : bytes) (line : nat) :
   Forall rline_wf (r_lines u) -> r_lines u <> [] -> name_ok name = true ->
   read_report (render_nocolor u name line) = Some (report_read_of u name line).
 Proof.
-  intros Hwf Hne Hname. unfold render_nocolor, report_read_of. destruct u as [[ls i] d].
-  cbn [r_lines r_ins r_del fst snd] in *.
-  destruct ls as [|r rs]; [congruence|]. clear Hne.
-  destruct (int_padding_spec i d) as (pi & pd & Hp & Hal).
-  rewrite (build_report_shape i d _ name line _ _
-             (render_body_nonempty (r :: rs) ltac:(discriminate)) Hp).
-  unfold read_report.
-  rewrite split_nl_app_nl by apply no_nl_nil.
-  rewrite split_nl_app_nl by (apply count_line_nonl; reflexivity).
-  rewrite split_nl_app_nl by (apply count_line_nonl; reflexivity).
-  rewrite split_nl_app_nl by apply no_nl_nil.
-  change (B "- ") with (45%N :: [32%N]). change (B "+ ") with (43%N :: [32%N]).
-  rewrite !read_count_line_ok by reflexivity.
-  rewrite Hal.
-  rewrite read_body_ok by exact Hwf.
-  rewrite read_footer_ok by exact Hname.
-  reflexivity.
+  intros Hwf Hne Hname. rewrite <- render_lbl_real.
+  now apply read_render_lbl_correct.
 Qed.
 
 (** the reader theorem (C13_report_readable / read_report_correct) for every valid script *)
